@@ -184,24 +184,31 @@ Proof.
 Qed.
 
 (* ---- the transitions ---- *)
-Lemma atom_node_of_value tok sec parent ns2 i :
-  is_atom_sec sec = true -> priority (ref_def tok) = Some 10%N -> norm_atom (ref_def tok) = ref_def tok ->
-  (definition_eqb (ref_def tok) D_Identifier = false \/ ref_def tok = D_Identifier) ->
-  atom_node (mkNode (atom_def (ref_def tok) parent ns2) sec parent None None (Some i)) (ref_def tok) i parent.
+Lemma atom_def_store d ns fs c :
+  spine ns fs c -> (definition_eqb d D_Identifier = false \/ d = D_Identifier) ->
+  atom_def d (top_id fs) ns = atom_store d fs.
 Proof.
-  intros Hs Hprio Hnorm Hident.
-  unfold atom_node. cbn [n_sec n_def n_parent n_left n_right n_tok]. split; [exact Hs|].
-  assert (Hd : (atom_def (ref_def tok) parent ns2 = ref_def tok) \/
-               (atom_def (ref_def tok) parent ns2 = D_Property /\ ref_def tok = D_Identifier)).
-  { unfold atom_def. destruct Hident as [E|E].
-    - rewrite E. left. reflexivity.
-    - rewrite E. cbn [definition_eqb definition_index N.eqb Pos.eqb].
-      destruct parent as [p|]; [|left; reflexivity].
-      destruct (nth_error ns2 p) as [pn|]; [|left; reflexivity].
-      destruct (definition_eqb (n_def pn) D_Access); [right; split; reflexivity|left; reflexivity]. }
-  destruct Hd as [->|[-> E]].
-  - repeat split; auto.
-  - rewrite E. repeat split; reflexivity.
+  intros Sp Hident. unfold atom_def, atom_store. destruct Hident as [E|E]; [rewrite E; reflexivity|].
+  rewrite E. cbn [definition_eqb definition_index N.eqb Pos.eqb].
+  destruct fs as [|f r]; [reflexivity|]. simpl in Sp. destruct Sp as [S1 _].
+  destruct (frame_node_walk _ _ _ _ S1) as (nf & Hnf & Hdf & _). cbn [top_id]. rewrite Hnf, Hdf. reflexivity.
+Qed.
+
+Lemma atom_store_prio d fs : priority d = Some 10%N -> priority (atom_store d fs) = Some 10%N.
+Proof.
+  intros H. unfold atom_store. destruct (definition_eqb d D_Identifier); [|exact H].
+  destruct fs as [|f r]; [exact H|]. destruct (definition_eqb (frame_def f) D_Access); [reflexivity|exact H].
+Qed.
+
+Lemma atom_node_of_value tok sec ns fs c i :
+  is_atom_sec sec = true -> priority (ref_def tok) = Some 10%N -> spine ns fs c ->
+  (definition_eqb (ref_def tok) D_Identifier = false \/ ref_def tok = D_Identifier) ->
+  atom_node (mkNode (atom_def (ref_def tok) (top_id fs) ns) sec (top_id fs) None None (Some i))
+            (atom_store (ref_def tok) fs) i (top_id fs).
+Proof.
+  intros Hs Hprio Sp Hident. rewrite (atom_def_store _ _ _ _ Sp Hident).
+  unfold atom_node. cbn [n_sec n_def n_parent n_left n_right n_tok].
+  repeat split; auto. apply atom_store_prio. exact Hprio.
 Qed.
 
 (* whitespace after a completed operand: the implicit list becomes possible *)
@@ -272,7 +279,7 @@ Qed.
 Theorem gstep_value ntoks i tok st fs sp :
   gpend st fs sp -> is_value_tok tok = true ->
   exists st', step ntoks i tok st = Ok st' /\
-              gcompl st' fs (NAtom (length (nodes st)) (ref_def tok) i) false /\
+              gcompl st' fs (NAtom (length (nodes st)) (atom_store (ref_def tok) fs) i) false /\
               length (nodes st') = S (length (nodes st)).
 Proof.
   intros G Hv. pose proof (gpend_adj _ _ _ G) as Hadj.
@@ -285,7 +292,7 @@ Proof.
   eexists. split; [reflexivity|]. split; [|cbn [nodes]; rewrite app_length; simpl; lia].
   constructor; cbn [nodes last_left next_last_left];
     [|reflexivity|eapply groups_ok_same; [| | |exact Hgr]; reflexivity|reflexivity|].
-  - apply value_on_pending; [exact PS|]. apply atom_node_of_value; assumption.
+  - apply value_on_pending; [exact PS|]. eapply atom_node_of_value; try assumption. exact (ps_spine _ _ PS).
   - unfold compl_mode. cbn [prev_sig check_for_list separated prev_sec].
     repeat split; destruct sec; try discriminate; reflexivity.
 Qed.
@@ -445,7 +452,7 @@ Theorem gstep_value_list ntoks i tok st fs t :
   exists st' fs' t',
     pop D_List fs t = (fs', t') /\ step ntoks i tok st = Ok st' /\
     gcompl st' (FBin (length (nodes st)) D_List None t' :: fs')
-               (NAtom (S (length (nodes st))) (ref_def tok) i) false /\
+               (NAtom (S (length (nodes st))) (atom_store (ref_def tok) (FBin (length (nodes st)) D_List None t' :: fs')) i) false /\
     length (nodes st') = S (S (length (nodes st))).
 Proof.
   intros G Hv. pose proof (gcompl_adj _ _ _ _ G) as Hadj.
@@ -465,7 +472,7 @@ Proof.
   rewrite <- Hlen.
   constructor; cbn [nodes last_left next_last_left];
     [|reflexivity|eapply groups_ok_same; [| | |exact Hgr]; [reflexivity|reflexivity|]|reflexivity|].
-  - apply value_on_pending; [exact PS|]. apply atom_node_of_value; assumption.
+  - apply value_on_pending; [exact PS|]. eapply atom_node_of_value; try assumption. exact (ps_spine _ _ PS).
   - cbn [group_ids]. apply (pop_group_ids _ _ _ _ _ Hpop).
   - unfold compl_mode. cbn [prev_sig check_for_list separated prev_sec].
     repeat split; destruct sec; try discriminate; reflexivity.
